@@ -1,3 +1,4 @@
 #!/bin/sh
 # usage: mut.sh <prop> <file-in-repo> <sed-expr>   -- apply a sed mutation, run the quick check, revert
-cd /repo && cp "$2" /tmp/mut.bak && sed -i "$3" "$2" && (git diff --stat | tail -1; cd /verif && ./check "$1" quick | grep -v "^  out-of" | cut -c1-220); cp /tmp/mut.bak /repo/"$2"
+# (the evidence file of the property is restored afterwards: evidence must only ever describe the unchanged tree)
+cd /repo && cp "$2" /tmp/mut.bak && sed -i "$3" "$2" && (git diff --stat | tail -1; cd /verif && ./check "$1" quick | grep -v "^  out-of" | cut -c1-220); cp /tmp/mut.bak /repo/"$2"; cd /verif && git checkout -q -- evidence/"$1".json 2>/dev/null
